@@ -33,7 +33,8 @@ RULE = (
 )
 ASSUMPTIONS = ["an abstract configuration is 'the same' in two syntaxes when each key carries the same string/boolean value in that syntax's own notation"]
 
-VERSIONS = [("1.2.3", "MAJOR.MINOR.PATCH"), ("v202003.1001-beta", "vYYYY0M.BUILD[-TAG]"), ("v201712.0033-beta", "{pycalver}")]
+# (2024.1100: a version that reads like a decimal number with a trailing zero - it must stay a string in every syntax)
+VERSIONS = [("1.2.3", "MAJOR.MINOR.PATCH"), ("v202003.1001-beta", "vYYYY0M.BUILD[-TAG]"), ("v201712.0033-beta", "{pycalver}"), ("2024.1100", "YYYY.BUILD")]
 TRI = (None, True, False)
 COMMIT_MSGS = [None, "bump {old_version} -> {new_version}", 'release "{new_version}" now', "progress 100% {new_version}"]
 TAG_MSGS = [None, "", "release {new_version}"]
@@ -322,7 +323,7 @@ def cli_level(st, abstract):
         with open(name, "w", encoding="utf-8", newline="") as f:
             f.write(text)
         o1 = world.cli("show", "--no-fetch")
-        o2 = world.cli("update", "--dry", "--no-fetch", "--set-version", {"1.2.3": "1.2.4", "v202003.1001-beta": "v202103.1002", "v201712.0033-beta": "v201801.0034"}[abstract[0][0]])
+        o2 = world.cli("update", "--dry", "--no-fetch", "--set-version", {"1.2.3": "1.2.4", "v202003.1001-beta": "v202103.1002", "v201712.0033-beta": "v201801.0034", "2024.1100": "2033.1101"}[abstract[0][0]])
         st.evaluations += 2
         # diff without the hunk of the config file itself
         diff = []
